@@ -4,9 +4,10 @@ from __future__ import annotations
 import ast
 
 from ..cfg import CFG, ENTRY, EXIT
-from ..core import (AnalysisError, call_name, const, dotted, is_const, kwarg, local_defs, norm, origin,
+from ..core import (AnalysisError, alpha, call_name, const, dotted, is_const, kwarg, local_defs, norm, origin,
                     parent_map, walk_local)
-from ..facts import default_of, guards_of, returns_of, enclosing_loops
+from ..facts import default_of, guards_of, returns_of, enclosing_loops, conjunct_nodes
+from ..pattern import pmatch, pfind, pall
 
 GC = "synkit/Graph/Matcher/graph_cluster.py"
 BC = "synkit/Graph/Matcher/batch_cluster.py"
@@ -79,15 +80,15 @@ def predicate(rep):
     for rel, q in ((GC, "GraphCluster.iterative_cluster"), (BC, "BatchCluster.lib_check")):
         fi = rep.f(rel, q)
         d = local_defs(fi.node)
-        iso = [x for x in d.get("iso_function", []) if x.kind == "assign"]
         pm = parent_map(fi.node)
+        fname, calls = _iso_callee(fi)
+        rep.need("R13", len(calls), 1, f"iso_function(a, b, nodeMatch, edgeMatch) in {q}")
+        iso = [x for x in d.get(fname, []) if x.kind == "assign"]
         graph_branch = [x for x in iso if any("nx.Graph" in norm(t) and s for t, s in guards_of(pm, x.stmt, fi.node))]
         ok = len(graph_branch) == 1 and norm(graph_branch[0].value) == "graph_isomorphism"
         rep.ob("O13.1", "R13", fi, ok, graph_branch[0].stmt if graph_branch else "iso_function", "graphs are compared with graph_isomorphism (full isomorphism, not containment)")
         imp = fi.module.imports.get("graph_isomorphism", "")
         rep.ob("O13.1", "R13", fi, imp.endswith("graph_morphism.graph_isomorphism"), f"import <- {imp}", "graph_isomorphism is the one of graph_morphism")
-        calls = [c for c in walk_local(fi.node) if isinstance(c, ast.Call) and norm(c.func) == "iso_function" and len(c.args) == 4]
-        rep.need("R13", len(calls), 1, f"iso_function(a, b, nodeMatch, edgeMatch) in {q}")
         c = calls[0]
         a2, a3 = norm(c.args[2]).replace(" ", ""), norm(c.args[3]).replace(" ", "")
         ok = a2 in ("nodeMatch", "nodeMatchorself.nodeMatch") and a3 in ("edgeMatch", "edgeMatchorself.edgeMatch")
@@ -99,7 +100,7 @@ def predicate(rep):
     rep.ob("O13.1", "R13", gi, ok, cs[0] if cs else "nx.is_isomorphic", "graph_isomorphism is nx.is_isomorphic with the given predicates")
     ft = rep.f(GC, "GraphCluster.fit")
     ic = [c for c in walk_local(ft.node) if isinstance(c, ast.Call) and call_name(c) == "iterative_cluster"]
-    ok = bool(ic) and [norm(a) for a in ic[0].args] == ["rules", "attributes", "self.nodeMatch", "self.edgeMatch"]
+    ok = bool(ic) and len(ic[0].args) == 4 and [norm(a) for a in ic[0].args[2:]] == ["self.nodeMatch", "self.edgeMatch"]
     rep.ob("O13.1", "R13", ft, ok, ic[0] if ic else "iterative_cluster", "fit clusters with the instance's predicates")
     bf = rep.f(BC, "BatchCluster.fit")
     gcs = [c for c in walk_local(bf.node) if isinstance(c, ast.Call) and call_name(c) == "GraphCluster"]
@@ -109,52 +110,71 @@ def predicate(rep):
         rep.note("C13: BatchCluster.fit builds GraphCluster() with default labels even when the BatchCluster was configured with other labels (outside the property's quantifier: element/charge/order)")
 
 
+def _iso_callee(fi):
+    """(name of the local that holds the comparison function, its 4-argument calls)"""
+    calls = [c for c in walk_local(fi.node) if isinstance(c, ast.Call) and isinstance(c.func, ast.Name) and len(c.args) == 4]
+    d = local_defs(fi.node)
+    calls = [c for c in calls if any(x.kind == "assign" for x in d.get(c.func.id, [])) and c.func.id not in fi.params]
+    return (calls[0].func.id if calls else None), calls
+
+
 def iterative(rep):
     fi = rep.f(GC, "GraphCluster.iterative_cluster")
+    R = fi.params[1]
     pm = parent_map(fi.node)
-    outer = [l for l in walk_local(fi.node) if isinstance(l, ast.For) and norm(l.iter) == "enumerate(rules)"]
+    d = local_defs(fi.node)
+    outer = [l for l in walk_local(fi.node) if isinstance(l, ast.For) and norm(l.iter) == f"enumerate({R})"]
     rep.need("R6b", len(outer), 1, "outer loop in iterative_cluster")
     ol = outer[0]
-    i = norm(ol.target.elts[0])
+    i, ri = [norm(e) for e in ol.target.elts]
+    rets = returns_of(fi.node)
+    rm = pmatch("($clusters, $map)", rets[-1].value) if rets else None
+    rep.ob("O13.2", "R6b", fi, rm is not None, rets[-1] if rets else "return", "the class list and the item->class map are returned")
+    if rm is None:
+        raise AnalysisError("iterative_cluster no longer returns (clusters, item->class map)")
+    CL, MAP = rm["clusters"], rm["map"]
     conts = [n for n in ol.body if isinstance(n, ast.If) and any(isinstance(x, ast.Continue) for x in n.body)]
-    ok = len(conts) == 1 and norm(conts[0].test) == f"{i} in visited"
+    vm = pmatch(f"{i} in $visited", conts[0].test) if len(conts) == 1 else None
     allc = [n for n in walk_local(ol) if isinstance(n, (ast.Continue, ast.Break))]
-    rep.ob("O13.2", "R6b", fi, ok and len(allc) == 1, [norm(c.test) for c in conts], "an item is skipped only if it already belongs to a class")
+    rep.ob("O13.2", "R6b", fi, vm is not None and len(allc) == 1, [norm(c.test) for c in conts], "an item is skipped only if it already belongs to a class")
+    if vm is None:
+        return
+    V = vm["visited"]
     # pairing visited.add(x) <-> rule_to_cluster[x] = len(clusters)
-    adds = [c for c in walk_local(ol) if isinstance(c, ast.Call) and norm(c.func) == "visited.add"]
+    adds = [c for c in walk_local(ol) if isinstance(c, ast.Call) and norm(c.func) == f"{V}.add"]
     rep.need("R6b", len(adds), 2, "visited.add sites")
+    member_set = None
+    for st_, b_ in pfind(f"$c = {{{i}}}", ol):
+        member_set = b_["c"]
     for a in adds:
         x = norm(a.args[0])
-        blk = pm.get(pm.get(a))  # Expr -> enclosing statement list owner
         sibs = _siblings(pm, a)
-        assigned = [s for s in sibs if isinstance(s, ast.Assign) and norm(s.targets[0]) == f"rule_to_cluster[{x}]" and norm(s.value) == "len(clusters)"]
+        assigned = [s for s in sibs if pmatch(f"{MAP}[{x}] = len({CL})", s) is not None]
         rep.ob("O13.2", "R6b", fi, len(assigned) == 1, f"visited.add({x})", f"marking item {x} as classified is paired with assigning it the current class index", node=a)
-        grow = [s for s in sibs if isinstance(s, ast.Expr) and isinstance(s.value, ast.Call) and norm(s.value.func) == "cluster.add"]
+        grow = [s for s in sibs if member_set and pmatch(f"{member_set}.add({x})", s) is not None]
         if x != i:
-            rep.ob("O13.2", "R6b", fi, len(grow) == 1 and norm(grow[0].value.args[0]) == x, f"cluster.add({x})", "and with adding it to the class's member set", node=a)
-    apps = [c for c in walk_local(ol) if isinstance(c, ast.Call) and norm(c.func) == "clusters.append"]
-    ok = len(apps) == 1 and not guards_of(pm, apps[0], ol) and not enclosing_loops(pm, apps[0], ol) and norm(apps[0].args[0]) == "cluster"
+            rep.ob("O13.2", "R6b", fi, len(grow) == 1, f"cluster.add({x})", "and with adding it to the class's member set", node=a)
+    apps = [c for c in walk_local(ol) if isinstance(c, ast.Call) and norm(c.func) == f"{CL}.append"]
+    ok = len(apps) == 1 and not guards_of(pm, apps[0], ol) and not enclosing_loops(pm, apps[0], ol) and member_set is not None and norm(apps[0].args[0]) == member_set
     rep.ob("O13.2", "R6b", fi, ok, apps[0] if apps else "clusters.append", "each new class is appended exactly once, after its members were collected (class index = position)")
-    # the class index used inside the iteration is the index the class will get
-    cfg = CFG(fi.node)
-    # members: j must be unvisited and pass the predicate
     inner = [l for l in walk_local(ol) if isinstance(l, ast.For) and l is not ol]
     rep.need("R6b", len(inner), 1, "inner loop in iterative_cluster")
     il = inner[0]
-    j = norm(il.target.elts[0])
-    it = norm(il.iter).replace(" ", "")
-    rep.ob("O13.2", "R6b", fi, it == f"enumerate(rules[{i}+1:],start={i}+1)", il.iter, "every later item is compared with the class representative, under its true index")
+    j, rj = [norm(e) for e in il.target.elts]
+    rep.ob("O13.2", "R6b", fi, pmatch(f"enumerate({R}[{i} + 1:], start={i} + 1)", il.iter) is not None, il.iter, "every later item is compared with the class representative, under its true index")
     ja = [a for a in adds if norm(a.args[0]) == j]
+    iso_flag = None
     if ja:
-        gs = [norm(t).replace(" ", "") for t, s in guards_of(pm, ja[0], il) if s]
-        ok = "is_isomorphic" in gs and any(f"{j}notinvisited" in g for g in gs) and any(f"attributes_sorted[{i}]==attributes_sorted[{j}]" in g for g in gs)
-        rep.ob("O13.2", "R6b", fi, ok, f"visited.add({j}) under {gs}", "an item joins a class iff it is unclassified, has the same pre-grouping attribute and is isomorphic to the representative", node=ja[0])
-    d = local_defs(fi.node)
-    iso = [x for x in d.get("is_isomorphic", []) if x.kind == "assign"]
-    ok = bool(iso) and all(isinstance(x.value, ast.Call) and [norm(a) for a in x.value.args[:2]] == ["rule_i", "rule_j"] for x in iso)
+        gs = [t for t, s in guards_of(pm, ja[0], il) if s]
+        flat = [cj for t in gs for cj in conjunct_nodes(t)]
+        flags = [t.id for t in flat if isinstance(t, ast.Name)]
+        iso_flag = flags[0] if len(flags) == 1 else None
+        ok = iso_flag is not None and any(pmatch(f"{j} not in {V}", t) is not None for t in flat) and \
+            any(pmatch(f"$a[{i}] == $a[{j}]", t) is not None or pmatch(f"$a[{j}] == $a[{i}]", t) is not None for t in flat)
+        rep.ob("O13.2", "R6b", fi, ok, f"visited.add({j}) under {[norm(t) for t in flat]}", "an item joins a class iff it is unclassified, has the same pre-grouping attribute and is isomorphic to the representative", node=ja[0])
+    iso = [x for x in d.get(iso_flag or "", []) if x.kind == "assign"]
+    ok = bool(iso) and all(isinstance(x.value, ast.Call) and [norm(a) for a in x.value.args[:2]] == [ri, rj] for x in iso)
     rep.ob("O13.2", "R6b", fi, ok, [norm(x.value)[:50] for x in iso], "the comparison is between the representative and the candidate item themselves")
-    rets = returns_of(fi.node)
-    rep.ob("O13.2", "R6b", fi, bool(rets) and norm(rets[-1].value) == "(clusters, rule_to_cluster)", rets[-1] if rets else "return", "the class list and the item->class map are returned")
 
 
 def _siblings(pm, call):
@@ -171,56 +191,55 @@ def _siblings(pm, call):
 
 def fit(rep):
     fi = rep.f(GC, "GraphCluster.fit")
-    loops = [l for l in walk_local(fi.node) if isinstance(l, ast.For) and norm(l.iter) == "enumerate(data)"]
+    D = fi.params[1]
+    loops = [l for l in walk_local(fi.node) if isinstance(l, ast.For) and norm(l.iter) == f"enumerate({D})"]
     rep.need("R6b", len(loops), 1, "assignment loop in GraphCluster.fit")
     lp = loops[0]
     idx, ent = [norm(e) for e in lp.target.elts]
     ws = [n for n in lp.body if isinstance(n, ast.Assign) and norm(n.targets[0]) == f"{ent}['class']"]
-    ok = len(ws) == 1 and norm(ws[0].value).replace(" ", "") in (f"rule_to_cluster_dict.get({idx},None)", f"rule_to_cluster_dict[{idx}]")
-    rep.ob("O13.2", "R6b", fi, ok, ws[0] if ws else "entry['class']", "every entry receives the class of its own index")
+    m = (pmatch(f"$m.get({idx}, None)", ws[0].value) or pmatch(f"$m[{idx}]", ws[0].value) or pmatch(f"$m.get({idx})", ws[0].value)) if len(ws) == 1 else None
+    rep.ob("O13.2", "R6b", fi, m is not None, ws[0] if ws else "entry['class']", "every entry receives the class of its own index")
     d = local_defs(fi.node)
-    up = [x for x in d.get("rule_to_cluster_dict", []) if x.index is not None]
-    rep.ob("O13.2", "R6b", fi, bool(up) and up[0].index == (1,) and call_name(up[0].value) == "iterative_cluster", "_, rule_to_cluster_dict = self.iterative_cluster(...)", "the map used is iterative_cluster's item->class map")
-    rules = [x for x in d.get("rules", []) if x.kind == "assign"]
-    ok = bool(rules) and all("for entry in data" in norm(x.value) and " if " not in norm(x.value) for x in rules)
+    up = [x for x in d.get(m["m"] if m else "", []) if x.index is not None]
+    rep.ob("O13.2", "R6b", fi, bool(up) and up[0].index == (1,) and call_name(up[0].value) == "iterative_cluster", up[0].stmt if up else "_, rule_to_cluster_dict = self.iterative_cluster(...)", "the map used is iterative_cluster's item->class map")
+    ic = [c for c in walk_local(fi.node) if isinstance(c, ast.Call) and call_name(c) == "iterative_cluster"]
+    rules_n = norm(ic[0].args[0]) if ic and ic[0].args else None
+    rules = [x for x in d.get(rules_n or "", []) if x.kind == "assign"]
+    ok = bool(rules) and all(isinstance(x.value, ast.ListComp) and len(x.value.generators) == 1 and norm(x.value.generators[0].iter) == D and not x.value.generators[0].ifs for x in rules)
     rep.ob("O13.2", "R6b", fi, ok, [norm(x.value)[:50] for x in rules], "rules and data are aligned index by index (no filtering)")
 
 
 def incremental(rep):
     fi = rep.f(BC, "BatchCluster.lib_check")
+    DATA, TEMPL = fi.params[1], fi.params[2]
     pm = parent_map(fi.node)
-    loops = [l for l in walk_local(fi.node) if isinstance(l, ast.For) and norm(l.iter) == "sub_temp"]
-    rep.need("SHAPE", len(loops), 1, "template loop in lib_check")
+    d = local_defs(fi.node)
+    loops = [l for l in walk_local(fi.node) if isinstance(l, ast.For) and l.orelse]
+    rep.need("SHAPE", len(loops), 1, "template loop (for/else) in lib_check")
     lp = loops[0]
     t = norm(lp.target)
-    hit = [n for n in walk_local(lp) if isinstance(n, ast.Assign) and norm(n.targets[0]) == "data['class']" and n not in lp.orelse]
+    hit = [n for n in walk_local(lp) if isinstance(n, ast.Assign) and norm(n.targets[0]) == f"{DATA}['class']"]
     hit_body = [n for n in hit if not any(n is x or any(n is y for y in ast.walk(x)) for x in lp.orelse)]
     ok = bool(hit_body) and all(norm(n.value) == f"{t}['class']" for n in hit_body)
-    rep.ob("O13.2", "SHAPE", fi, ok, [norm(n) for n in hit_body], "a matching item takes the class of the matching representative")
+    rep.ob("O13.2", "SHAPE", fi, ok, [alpha(n, fi.node) for n in hit_body], "a matching item takes the class of the matching representative")
     for n in hit_body:
         sibs = _siblings(pm, n.targets[0])
-        rep.ob("O13.2", "SHAPE", fi, any(isinstance(s, ast.Break) for s in sibs), n, "and classification stops at the first matching representative", node=n)
+        rep.ob("O13.2", "SHAPE", fi, any(isinstance(s, ast.Break) for s in sibs), alpha(n, fi.node), "and classification stops at the first matching representative", node=n)
     orelse = lp.orelse
-    txt = [norm(s) for s in orelse]
-    new = [s for s in orelse if isinstance(s, ast.Assign) and norm(s.targets[0]) == "new_class"]
-    ok = bool(new) and norm(new[0].value).replace(" ", "") == "max((temp['class']fortempintemplates),default=-1)+1"
-    rep.ob("O13.2", "SHAPE", fi, ok, new[0] if new else "new_class", "without a match a fresh class id (max + 1 over *all* representatives) is allocated")
-    ok = any(isinstance(s, ast.Assign) and norm(s.targets[0]) == "data['class']" and norm(s.value) == "new_class" for s in orelse)
-    rep.ob("O13.2", "SHAPE", fi, ok, txt, "the item receives the fresh class")
-    ap = [s for s in orelse if isinstance(s, ast.Expr) and isinstance(s.value, ast.Call) and norm(s.value.func) == "templates.append"]
-    ok = len(ap) == 1 and norm(ap[0].value.args[0]) in ("data.copy()", "dict(data)", "copy.copy(data)", "copy.deepcopy(data)")
+    txt = [alpha(s, fi.node) for s in orelse]
+    b = pall([f"$new = max(($x['class'] for $x in {TEMPL}), default=-1) + 1", f"{DATA}['class'] = $new"], ast.Module(body=orelse, type_ignores=[]))
+    rep.ob("O13.2", "SHAPE", fi, b is not None, txt, "without a match a fresh class id (max + 1 over *all* representatives) is allocated")
+    rep.ob("O13.2", "SHAPE", fi, b is not None, txt, "the item receives the fresh class")
+    ap = [s for s in orelse if isinstance(s, ast.Expr) and isinstance(s.value, ast.Call) and norm(s.value.func) == f"{TEMPL}.append"]
+    ok = len(ap) == 1 and norm(ap[0].value.args[0]) in (f"{DATA}.copy()", f"dict({DATA})", f"copy.copy({DATA})", f"copy.deepcopy({DATA})")
     rep.ob("O13.2", "SHAPE", fi, ok, ap[0] if ap else "templates.append", "and becomes a new representative, stored as a copy")
-    # every exit carries a class: for-else means exactly one of the two assignments runs
-    d = local_defs(fi.node)
-    st = [x for x in d.get("sub_temp", []) if x.kind == "assign"]
-    ok = bool(st) and norm(st[0].value).replace(" ", "") == "[tempfortempintemplatesiftemp.get(attribute_key)==att]" and \
-        norm(origin(d, ast.Name(id="att", ctx=ast.Load()))) == "data.get(attribute_key)"
-    rep.ob("O13.2", "SHAPE", fi, ok, st[0].stmt if st else "sub_temp", "candidates are the representatives with the same pre-grouping attribute")
+    # candidates
+    st = origin(d, lp.iter)
+    m = pmatch(f"[$x for $x in {TEMPL} if $x.get(attribute_key) == $att]", st)
+    ok = m is not None and pmatch(f"{DATA}.get(attribute_key)", origin(d, ast.Name(id=m["att"], ctx=ast.Load()))) is not None
+    rep.ob("O13.2", "SHAPE", fi, ok, st, "candidates are the representatives with the same pre-grouping attribute")
     rets = returns_of(fi.node)
-    rep.ob("O13.2", "SHAPE", fi, bool(rets) and norm(rets[-1].value) == "(data, templates)", rets[-1] if rets else "return", "the classified item and the (possibly extended) representatives are returned")
-    calls = [c for c in walk_local(lp) if isinstance(c, ast.Call) and norm(c.func) == "iso_function"]
-    ok = bool(calls) and all([norm(a) for a in c.args[:2]] == ["template_data", "data_rule"] for c in calls)
-    rep.ob("O13.2", "SHAPE", fi, ok, [norm(c)[:50] for c in calls], "the item is compared with the representative's graph")
+    rep.ob("O13.2", "SHAPE", fi, bool(rets) and norm(rets[-1].value) == f"({DATA}, {TEMPL})", rets[-1] if rets else "return", "the classified item and the (possibly extended) representatives are returned")
 
 
 MUTANTS = [
